@@ -1,4 +1,8 @@
 import Mps.Judge
+import MpsProps.Src.SrcCmpKeygen
+import MpsProps.Src.SrcFrostKeygen
+import MpsProps.Src.SrcDoernerKeygen
+import MpsProps.Src.SrcCmpConfig
 import MpsProps.C14alg
 import MpsProps.AlgGen
 /-
